@@ -219,6 +219,9 @@ static int module_dfs(struct module *module, int visit)
     if (module->handle
         && (func = dlsym(module->handle, "module_post_init")))
         func(module);
+    /* Finished: reaching this module again along another path of the
+     * same walk is not a dependency loop. */
+    module->visited = -1;
     return 0;
 }
 
